@@ -67,10 +67,19 @@ func replaceSuffixes(inputLines *bytes.Buffer, suffixReplacements map[string]str
 	for scanner.Scan() {
 		entry := scanner.Text()
 		if !skipRegex.MatchString(entry) {
-			for match, replacement := range suffixReplacements {
-				var found bool
-				entry, found = strings.CutSuffix(entry, match)
-				if found && replacement != `""` {
+			// Apply at most one replacement per entry: the one with the longest matching suffix.
+			// The result must not depend on the iteration order of the map.
+			longestMatch := ""
+			found := false
+			for match := range suffixReplacements {
+				if strings.HasSuffix(entry, match) && (!found || len(match) > len(longestMatch)) {
+					longestMatch = match
+					found = true
+				}
+			}
+			if found {
+				entry = strings.TrimSuffix(entry, longestMatch)
+				if replacement := suffixReplacements[longestMatch]; replacement != `""` {
 					entry += replacement
 				}
 			}
